@@ -324,7 +324,7 @@ fn main() {
         for c in corpus() {
             cases.push(Case::parse(c));
         }
-        let n = args.count(1200, 200_000);
+        let n = args.count(1200, 50_000);
         let mut rng = Rng::new(args.seed);
         for i in 0..n {
             let fmt = wb::ALL_FORMATS[(i % 4) as usize];
